@@ -79,7 +79,11 @@ impl Prop for C16 {
             max_members: 4,
             ..GenCfg::default()
         };
-        let d = doccase::gen_doc(&mut s, &cfg, &LayoutCfg::default())?;
+        let lc = LayoutCfg {
+            newline_heavy: s.chance(1, 2),
+            ..LayoutCfg::default()
+        };
+        let d = doccase::gen_doc(&mut s, &cfg, &lc)?;
         st.eval();
         let text = &d.laid.text;
         let case = || bytes_case(bytes, json!({"text": text}));
